@@ -158,7 +158,16 @@ def error_discipline(ctx, mod, fns):
     # read side: no bare ValueError conversion required by the property beyond schema errors
     fnr = fns["read_scsv"]
     ctx.ob("C16.errors", "read_scsv:header/schema name mismatch -> SCSVError", sum(1 for n in ast.walk(fnr) if isinstance(n, ast.Raise)) >= 2 and raises_in(fnr.body, "SCSVError"), "", L(mod, fnr, ctx))
-    ctx.floor("C16.errors", 3)
+    # every cell is validated: the validation call dominates every append of a cell to the output row
+    cfg = flow.CFG(fn)
+    idom = cfg.dominators()
+    calls = [n for n, s in cfg.stmt.items() if isinstance(s, ast.Expr) and is_call_to(s.value, "_parse_scsv_cell")]
+    appends = [n for n, s in cfg.stmt.items() if isinstance(s, ast.Expr) and isinstance(s.value, ast.Call) and isinstance(s.value.func, ast.Attribute)
+               and s.value.func.attr == "append" and flow.dotted(s.value.func.value) == "row"]
+    ctx.ob("C16.errors", "save_scsv:every cell is validated before it is written", bool(calls) and len(appends) >= 3 and
+           all(any(cfg.dominates(c_, a_, idom) for c_ in calls) for a_ in appends),
+           f"{len(calls)} validation call(s), {len(appends)} row.append site(s); a cell can reach the row without passing _parse_scsv_cell", L(mod, fn, ctx))
+    ctx.floor("C16.errors", 4)
 
 
 def get_defaults(fn, key):
